@@ -1,8 +1,9 @@
 #!/bin/bash
 # runall.sh [tier] [props...]: run checks sequentially, one summary line each
 TIER=${1:-quick}; shift
-PROPS=${@:-$(python3 -c "import json;print(' '.join(c['property_id'] for c in json.load(open('/verif/MANIFEST.json'))['checks']))")}
-cd /verif
+HERE="$(cd "$(dirname "$0")/.." && pwd)"
+PROPS=${@:-$(python3 -c "import json;print(' '.join(c['property_id'] for c in json.load(open('$HERE/MANIFEST.json'))['checks']))")}
+cd "$HERE"; mkdir -p build
 for p in $PROPS; do
   s=$(date +%s)
   ./check $p --tier $TIER > build/run_$p.log 2>&1; rc=$?
